@@ -279,7 +279,8 @@ prop(
     subcmds=[("c04", {"quick": 1600, "thorough": 60000, "search": 8000}), ("c04t", {"quick": 480, "thorough": 20000, "search": 2400}),
              ("c04m", {"quick": 96, "thorough": 4800, "search": 480})],
     theorems=["C04_tree_iteration_is_spec", "C04_step_is_spec", "C04_checker_sound_order", "C04_checker_sound_depth", "C04_merged_step_is_next", "C04_merged_iteration_is_spec", "C04_prescription_is_unambiguous",
-              "Mut.C04_set_keeps_tree", "Mut.C04_sets_keep_tree", "Mut.C04_spec_ins_is_set_insertion"],
+              "Mut.C04_set_keeps_tree", "Mut.C04_sets_keep_tree", "Mut.C04_spec_ins_is_set_insertion",
+              "Mut.C04_mutations_keep_tree", "Mut.C04_remove_keeps_tree", "Mut.C04_spec_del_is_set_removal"],
     counts={"quick": 1600, "thorough": 60000, "search": 8000},
     rule="(c04m, tree shape) 30-200 short keys, 40-260 operations, each its own drained transaction, in three phases (grow - ascending, descending or random -, churn, shrink; "
          "removals prefer the smallest / largest / a random live key): after EVERY operation the tree is read from the raw files and compared, node for node, with the tree the "
@@ -291,7 +292,7 @@ prop(
          "ordered map of accepted writes. (c04t) 20-160 keys, 3-30 transactions of 1-40 operations with removals dominating late (splits, merges, root growth and "
          "shrink); after the drain the tree is read from the RAW files by the harness's parser and judged by the extracted proved checker; its in-order key list must "
          "equal the live keys. Non-trivial: a history that touches a key while an earlier touch is not yet enacted (c04), a tree of depth >= 1 (c04t)",
-    assumptions=["tree mutation: the invariant proof covers Set (any tree, any key, any sequence); removal (rebalance by borrowing / merging, root shrink) is tied by the c04m correspondence and the proved checker on raw dumps, its invariant proof is not done; one change per transaction in c04m (the batched descent of Node::change over several sorted changes is exercised by c04 / c04t only)",
+    assumptions=["tree mutation: proved for one change at a time (any sequence of sets and removals); the batched descent of Node::change over several sorted changes of one transaction is exercised by c04 / c04t and judged by the proved checker on raw dumps only; values and reference counts of btree entries are not part of the mutation model (a removal is a removal that takes the key out)",
                  "the merge of the tree cursor with a NON-EMPTY commit overlay is tied by correspondence and by the oracle, not proved (the proved sequence theorem is for an empty overlay with arbitrarily changing tree content)",
                  "the tree cursor over nodes is abstracted to a cursor over the sorted entry list; that abstraction is what the correspondence validates"],
     explanation="iterator modelled as tree-cursor + commit-overlay merge exactly as iter_inner does it (pending item, last key, re-seek on change); proved checker for raw tree dumps",
